@@ -146,7 +146,7 @@ Theorem document_totals_independent_of_row_order d ls ds cs t :
     Permutation (t_dd t) (t_dd t') /\ Permutation (t_cc t) (t_cc t') /\
     t_adv_rows t = t_adv_rows t' /\ t_dues t = t_dues t' /\
     PermutationA ceqv (t_cats t) (t_cats t') /\
-    t_taxsum t = t_taxsum t' /\ t_taxsum_precise t = t_taxsum_precise t'.
+    t_taxsum t = t_taxsum t' /\ t_taxsum_precise t = t_taxsum_precise t' /\ t_rounding t = t_rounding t'.
 Proof. exact (totals_independent_of_row_order d ls ds cs t). Qed.
 Print Assumptions document_totals_independent_of_row_order.
 
